@@ -32,6 +32,7 @@
 #include <sys/wait.h>
 #include <unistd.h>
 #include "uv.h"
+#include "c09_probe.h"
 
 #ifndef KCMP_FILE
 #define KCMP_FILE 0
@@ -200,6 +201,13 @@ static void run_case(char* line) {
     ah[i].data = (void*) (intptr_t) i;
   }
   if (efd_of_loop() < 0 || loop.async_wfd != -1) die("no eventfd");
+  if (c09_poll_probes(&loop) != 0) {
+    char b[256];
+    int k = snprintf(b, sizeof b, "PROBE-FAIL the loop's eventfd %d is missing from the epoll interest set after "
+                     "uv_poll_init() on the descriptor numbers 3..63\n", efd_of_loop());
+    if (write(1, b, k) < 0) {}
+    _exit(0);
+  }
   for (t = strtok_r(semi + 1, " \n", &save); t; t = strtok_r(NULL, " \n", &save)) {
     if (t[0] == 'F') {
       if (child != -1) die("second fork");
